@@ -153,7 +153,7 @@ func init() {
 				{K: "resp", I: 0}, {K: "resp", I: 1}, {K: "resp", I: 2},
 				{K: "unknown"}, {K: "garbage", Arg: 0},
 				{K: "tick", Arg: 0}, {K: "tick", Arg: 1}, {K: "tick", Arg: 2},
-				{K: "failwrite"}, {K: "failagent"}, {K: "close"},
+				{K: "failwrite"}, {K: "failagent"}, {K: "failagent", Arg: 1}, {K: "close"},
 			}
 			cliHistories(c, "C10", cliOpts{}, alpha, depth, []string{"drain+close", "close"}, "H")
 			cliHistories(c, "C10", cliOpts{NoRetransmit: true, Fallback: true}, alpha, depth-1, []string{"drain+close", "close"}, "Hnr")
@@ -207,6 +207,9 @@ func cliConcurrentScenarios() []cliScenario {
 		{Setup: []cliEv{ev("start", 0)}, Threads: [][]cliEv{nil, {{K: "close"}}, {ev("resp", 0)}}, Epilogue: "close"},
 		// S9 Start with a failing first write || tick (no retransmission: the timeout is final) 
 		{Setup: []cliEv{{K: "failwrite"}}, Threads: [][]cliEv{nil, {ev("start", 0)}, {tickFar}}, Opts: cliOpts{NoRetransmit: true}, Epilogue: "drain+close"},
+		// S11 re-transmission of A || a new Start with the same id (the id is free while the re-transmission is between
+		// taking A out of the table and putting it back)
+		{Setup: []cliEv{ev("start", 0)}, Threads: [][]cliEv{nil, {tickAfter}, {ev("start", 0)}}, DupIDs: true, Epilogue: "drain+close"},
 		// S10 Do(A) || resp(A) then Do(A) again on the recycled wait handler
 		{Threads: [][]cliEv{nil, {ev("do", 0), ev("do", 0)}, {ev("resp", 0), ev("resp", 0)}}, Epilogue: "drain+close", Opts: cliOpts{PoolFanout: true}},
 	}
